@@ -199,7 +199,7 @@ Qed.
 
 Lemma step_inv : forall st o, req_wf o = true -> inv st -> inv (step st o).
 Proof.
-  intros st o Hwf Hinv. destruct o as [kind dg re ignore same snaps tasks | ci i r | k l]; [| |discriminate].
+  intros st o Hwf Hinv. destruct o as [kind dg re ignore same snaps tasks | ci i r | k l | k l]; [| |discriminate|discriminate].
   - unfold step. destruct (rejected st _) eqn:Hrej; [exact Hinv|].
     cbn [rejected] in Hrej. apply orb_false_elim in Hrej. destruct Hrej as [Hrej _].
     apply orb_false_elim in Hrej. destruct Hrej as [Hchk _]. cbn [req_wf] in Hwf.
@@ -233,7 +233,7 @@ Proof. intros ops Hwf. apply (run_inv ops []); [exact Hwf | split; [constructor 
 
 Theorem rejected_creates_nothing : forall st o, rejected st o = true -> step st o = st.
 Proof.
-  intros st o H. destruct o as [kind dg re ignore same snaps tasks | ci i r | k l]; [|discriminate|discriminate].
+  intros st o H. destruct o as [kind dg re ignore same snaps tasks | ci i r | k l | k l]; [|discriminate|discriminate|discriminate].
   unfold step. rewrite H. reflexivity.
 Qed.
 
@@ -316,4 +316,72 @@ Definition demo_ops : list op :=
    Request (bs "disable-snap"%string) false false None true [1] [mkTask [1] false]].
 Lemma demo : forallb req_wf demo_ops = true /\ map c_id (run [] demo_ops) = [1; 2; 3] /\
   map counts (run [] demo_ops) = [false; true; true].
+Proof. vm_compute. repeat split; reflexivity. Qed.
+
+(* ------------------------------------------------------------------ the conflict matrix, as equivalences *)
+Lemma touches_some : forall c snaps, touches c snaps = true <-> exists x, In x snaps /\ touches c [x] = true.
+Proof.
+  intros c snaps. split.
+  - unfold touches. rewrite existsb_exists. intros [t [Ht Hi]]. unfold intersects in Hi. rewrite existsb_exists in Hi.
+    destruct Hi as [y [Hy Hm]]. exists y. split; [apply mem_In; exact Hm|].
+    apply existsb_exists. exists t. split; [exact Ht|]. unfold intersects. apply existsb_exists. exists y.
+    split; [exact Hy|]. cbn. rewrite N.eqb_refl. reflexivity.
+  - intros [x [Hx Ht]]. eapply touches_mono; eassumption.
+Qed.
+
+(* one row of the exclusive-kinds table: which in-progress change stops a request (new_excl: the request must itself
+   run exclusively) *)
+Theorem excl_hit_table : forall new_excl ignore c,
+  excl_hit new_excl ignore c =
+  negb (c_ready c) &&
+  (kind_in (c_kind c) excl_always
+   || (kind_in (c_kind c) excl_ignorable && negb (is_ignored c ignore))
+   || (kind_in (c_kind c) excl_downgrade && negb (is_ignored c ignore) && (c_dg c || new_excl))
+   || (negb (kind_in (c_kind c) excl_always) && negb (kind_in (c_kind c) excl_ignorable)
+       && negb (kind_in (c_kind c) excl_downgrade) && new_excl)).
+Proof.
+  intros new_excl ignore c. unfold excl_hit. rewrite ordinary_refresh_blocks.
+  destruct (c_ready c), (kind_in (c_kind c) excl_always), (kind_in (c_kind c) excl_ignorable),
+    (kind_in (c_kind c) excl_downgrade), (is_ignored c ignore), (c_dg c), new_excl; reflexivity.
+Qed.
+
+(* a request is refused IF AND ONLY IF: an exclusive change is in progress (first table), or an in-progress non-exempt
+   change other than the requesting one has a task affecting one of the snaps named by the request, or the snap record
+   is stale, or the request must run exclusively and any change of the second table is in progress *)
+Theorem rejected_iff : forall st kind dg re ignore same snaps tasks,
+  rejected st (Request kind dg re ignore same snaps tasks) = true <->
+  (exists c, In c st /\ excl_hit false ignore c = true) \/
+  (exists c x, In c st /\ relevant ignore c = true /\ In x snaps /\ touches c [x] = true) \/
+  same = false \/
+  (re = true /\ exists c, In c st /\ excl_hit true ignore c = true).
+Proof.
+  intros st kind dg re ignore same snaps tasks. cbn [rejected]. unfold check_many, check_exclusive.
+  rewrite !orb_true_iff, andb_true_iff, !existsb_exists, negb_true_iff. split.
+  - intros [[[H|H]|H]|[H1 H2]].
+    + left. exact H.
+    + right; left. destruct H as [c [Hin H]]. apply andb_prop in H. destruct H as [Hr Ht].
+      apply touches_some in Ht. destruct Ht as [x [Hx Ht]]. exists c, x. repeat split; assumption.
+    + right; right; left. exact H.
+    + right; right; right. split; assumption.
+  - intros [H|[[c [x [Hin [Hr [Hx Ht]]]]]|[H|[H1 H2]]]].
+    + left; left; left. exact H.
+    + left; left; right. exists c. split; [exact Hin|]. rewrite Hr. cbn. eapply touches_mono; eassumption.
+    + left; right. exact H.
+    + right. split; assumption.
+Qed.
+
+(* accepted requests: exactly the complement, and what they create *)
+Theorem accepted_creates : forall st kind dg re same snaps tasks,
+  rejected st (Request kind dg re None same snaps tasks) = false ->
+  step st (Request kind dg re None same snaps tasks) = st ++ [mkChange (next_id st) kind dg tasks].
+Proof. intros st kind dg re same snaps tasks H. unfold step. rewrite H. reflexivity. Qed.
+
+(* non-vacuity of the matrix: an in-progress install of snap 1 refuses a request on snaps 1 and 2, accepts one on snap 2,
+   and is itself no obstacle once finished *)
+Definition matrix_state : state := [mkChange 1 (bs "install-snap"%string) false [mkTask [1] false; mkTask [1] true]].
+Lemma matrix_example :
+  rejected matrix_state (Request (bs "remove-snap"%string) false false None true [1; 2] [mkTask [1] false]) = true /\
+  rejected matrix_state (Request (bs "remove-snap"%string) false false None true [2] [mkTask [2] false]) = false /\
+  rejected matrix_state (Request (bs "remodel"%string) false true None true [2] [mkTask [2] false]) = true /\
+  rejected (step matrix_state (Progress 1 0 true)) (Request (bs "remove-snap"%string) false false None true [1] [mkTask [1] false]) = false.
 Proof. vm_compute. repeat split; reflexivity. Qed.
